@@ -280,7 +280,6 @@ func (c *Client) plan() {
 			if m.Text == "" {
 				data = payloadFor(m.ID, m.Size)
 			}
-			c.w.recx(Ev{Sess: c.name, Kind: "c-send", S: kindPrefix(m.Binary) + string(data)})
 			c.enqueue(ref.Packet{Type: tMessage, Data: data, Binary: m.Binary})
 		}})
 	}
@@ -531,6 +530,10 @@ func (c *Client) writeLoop() {
 		c.sendQ = nil
 		if c.stream != nil && c.transport != "polling" {
 			for _, p := range q {
+				if p.Type == tMessage {
+					// submission order is the order on the wire, not the order of enqueueing
+					c.w.recx(Ev{Sess: c.name, Kind: "c-send", S: kindPrefix(p.Binary) + string(p.Data)})
+				}
 				if err := c.stream.sendPacket(p); err != nil {
 					c.rec("c-write-error", err.Error(), 0)
 					c.fail("stream write: " + err.Error())
@@ -566,6 +569,7 @@ func (c *Client) writeLoop() {
 		for _, p := range q {
 			if p.Type == tMessage {
 				pl = append(pl, kindPrefix(p.Binary)+string(p.Data))
+				c.w.recx(Ev{Sess: c.name, Kind: "c-send", S: kindPrefix(p.Binary) + string(p.Data)})
 			}
 		}
 		c.w.recx(Ev{Sess: c.name, Kind: "c-post-start", N: int64(r.ID), P: pl})
